@@ -1323,8 +1323,14 @@ class JSONVisitor:
                 # end_before = self._locate_text(end_before_text, lines, line, text)
                 end_before = _locate_text(end_before_text)
 
-            # Check that start_after_text precedes end_before_text (and end_before exists)
-            if start_after >= end_before >= 0:
+            # Check that start_after_text precedes end_before_text (and end_before exists).
+            # Only meaningful when both markers were requested: with a single marker the
+            # other bound is the start/end of the file and there is no order to violate.
+            if (
+                "start-after" in options
+                and "end-before" in options
+                and start_after >= end_before >= 0
+            ):
                 self.diagnostics.append(
                     InvalidLiteralInclude(
                         f'"{end_before_text}" precedes "{start_after_text}" in {filepath}',
